@@ -104,6 +104,88 @@ def programs(tier):
         println(show_int(Call("via_dyn", ToDyn("Lib::LT", Var("v"))))),
     ], Unit))
     out.append({"prog": p, "family": "c17", "ident": "c17:other-package", "extra_files": {"Lib/lib.gom": libtext}})
+
+    # ---- every call form where the result is not used: the implementation must still run (once per evaluation)
+    CN = TAdt("Counter")
+
+    def effect_decls(p):
+        p.struct("Counter", [("cell", TRef(INT32))])
+        p.trait("Tick", [("tick", [], UNIT), ("get", [], INT32)])
+        bump = Block([Do(Call("ref_set", Field(Var("self"), "cell"), Bin("+", Call("ref_get", Field(Var("self"), "cell")), Int(1))))], Unit)
+        p.impl("Tick", CN, [("tick", [("self", CN)], UNIT, bump), ("get", [("self", CN)], INT32, Call("ref_get", Field(Var("self"), "cell")))])
+        p.impl(None, CN, [("bump", [("self", CN)], UNIT, bump)])
+
+    def form_call(form, recv):
+        if form == "inh-method":
+            c = Call("inherent#Counter#bump", recv); c["form"] = "method"; return c
+        if form == "inh-ufcs":
+            c = Call("inherent#Counter#bump", recv); c["form"] = "ufcs"; return c
+        if form == "bound-method":
+            return TCall("Tick", "tick", recv, form="method")
+        return TCall("Tick", "tick", recv)          # concrete / bound-ufcs / dyn
+
+    positions = ["stmt", "do", "while-tail", "if-tail", "match-tail", "fn-tail"]
+    for form in ("inh-method", "inh-ufcs", "concrete", "bound-method", "bound-ufcs", "dyn"):
+        for pos in positions:
+            p = Program(f"c17_eff_{form}_{pos}".replace("-", "_"))
+            effect_decls(p)
+            pty = TParam("T") if form.startswith("bound") else (TDyn("Tick") if form == "dyn" else CN)
+            gens = [("T", ["Tick"])] if form.startswith("bound") else []
+            call = form_call(form, Var("x"))
+            if pos == "stmt":
+                body = Block([Stmt(call), Stmt(call)], Unit)
+            elif pos == "do":
+                body = Block([Do(call), Do(call)], Unit)
+            elif pos == "while-tail":
+                body = Block([Let("i", Call("ref", Int(0))),
+                              Stmt(While(Bin("<", Call("ref_get", Var("i")), Int(2)),
+                                         Block([Do(Call("ref_set", Var("i"), Bin("+", Call("ref_get", Var("i")), Int(1))))], call)))], Unit)
+            elif pos == "if-tail":
+                body = Block([Stmt(If(Var("b"), Block([], call), Block([], Unit))), Stmt(If(Var("b"), Block([], Unit), Block([], call)))], call)
+            elif pos == "match-tail":
+                body = Block([Stmt(Match(Var("b"), [(PBool(True), call), (PBool(False), Unit)]))], Match(Var("b"), [(PBool(False), Unit), (PWild, call)]))
+            else:
+                body = call
+            p.fn("run", [("x", pty), ("b", BOOL)], UNIT, body, gens=gens)
+            arg = ToDyn("Tick", Var("c")) if form == "dyn" else Var("c")
+            p.fn("main", [], UNIT, Block([
+                Let("c", Struct(CN, [("cell", Call("ref", Int(0)))]), ty=CN),
+                Do(Call("run", arg, Bool(True), targs=([CN] if gens else []))),
+                println(show_int(TCall("Tick", "get", Var("c")))),
+            ], Unit))
+            out.append({"prog": p, "family": "c17", "ident": f"c17:effect:{form}:{pos}"})
+    # ---- `Tr2::m(d)` on a trait object of another trait: the impl of Tr2 for the type `dyn Tr`, never d's own vtable
+    DT = TDyn("Show")
+    def cross_decls(p, with_impl):
+        p.struct("P", [("a", INT32)])
+        p.trait("Show", [("name", [], INT32)])
+        p.trait("Describe", [("name", [], INT32)])
+        p.impl("Show", TAdt("P"), [("name", [("self", TAdt("P"))], INT32, Bin("+", Field(Var("self"), "a"), Int(1000)))])
+        p.impl("Describe", TAdt("P"), [("name", [("self", TAdt("P"))], INT32, Bin("+", Field(Var("self"), "a"), Int(2000)))])
+        if with_impl:
+            p.impl("Describe", DT, [("name", [("self", DT)], INT32, Bin("+", TCall("Show", "name", Var("self")), Int(30000)))])
+    p = Program("c17_cross_dyn")
+    cross_decls(p, True)
+    p.fn("g", [("x", TParam("T"))], INT32, TCall("Describe", "name", Var("x")), gens=[("T", ["Describe"])])
+    p.fn("gm", [("x", TParam("T"))], INT32, TCall("Describe", "name", Var("x"), form="method"), gens=[("T", ["Describe"])])
+    p.fn("main", [], UNIT, Block([
+        Let("v", Struct(TAdt("P"), [("a", Int(7))]), ty=TAdt("P")),
+        Let("d", ToDyn("Show", Var("v")), ty=DT),
+        println(show_int(TCall("Show", "name", Var("d")))),
+        println(show_int(TCall("Describe", "name", Var("v")))),
+        println(show_int(TCall("Describe", "name", Var("d")))),
+        println(show_int(Call("g", Var("d"), targs=[DT]))),
+        println(show_int(Call("gm", Var("d"), targs=[DT]))),
+    ], Unit))
+    out.append({"prog": p, "family": "c17", "ident": "c17:cross-trait-dyn"})
+    p = Program("c17_cross_dyn_no_impl")
+    cross_decls(p, False)
+    p.fn("main", [], UNIT, Block([
+        Let("v", Struct(TAdt("P"), [("a", Int(7))]), ty=TAdt("P")),
+        Let("d", ToDyn("Show", Var("v")), ty=DT),
+        println(show_int(TCall("Describe", "name", Var("d")))),
+    ], Unit))
+    out.append({"prog": p, "family": "c17", "ident": "c17:cross-trait-dyn-without-impl", "expect": "reject"})
     # ---- rejections: ambiguous method name under two bounds; dyn coercion without an implementation
     p = Program("c17_ambiguous")
     decls(p)
